@@ -12,6 +12,7 @@ import (
 	"encoding/json"
 	"fmt"
 	"os"
+	"regexp"
 	"strconv"
 	"strings"
 )
@@ -30,6 +31,26 @@ type Rec struct {
 	Fn   string          `json:"fn"`
 	Args json.RawMessage `json:"args"`
 	Res  json.RawMessage `json:"res"`
+	// C19 (GetMsgSig) records: metamorphic group, trunc-or-same alternative, rendered-string prefix
+	Grp    string          `json:"grp"`
+	Alt    json.RawMessage `json:"alt"`
+	Same   json.RawMessage `json:"same"`
+	Full   json.RawMessage `json:"full"`
+	StrHdr *string         `json:"strhdr"`
+	Layer  string          `json:"layer"`
+}
+
+var sigStringRe = regexp.MustCompile(`^([0-9a-f][0-9a-f]{0,8}I[0-9a-f]{6}F[0-9a-f]{4}V[0-9a-f]{4})?$`)
+
+// sigPart: the signature proper (without the parse offset, which differs between variants of a message)
+func sigPart(res string) string {
+	m, _ := parseAny(res).(map[string]interface{})
+	if m == nil {
+		return res
+	}
+	delete(m, "poffs")
+	b, _ := json.Marshal(m)
+	return string(b)
 }
 
 func canon(raw []byte) string {
@@ -96,6 +117,8 @@ func parseAny(s string) interface{} {
 	return v
 }
 
+var grpSig = map[string]string{}
+
 func runReplay(job *Job) Result {
 	f, err := os.Open(job.InputsFile)
 	if err != nil {
@@ -137,13 +160,51 @@ func runReplay(job *Job) Result {
 		}
 		nrec++
 		if r.Fn != "" {
-			got := callFn(r.Fn, r.Args)
+			args := r.Args
+			if r.Fn == "GetMsgSig" && len(r.Cuts) == 2 { // chunk schedule for the message behind the signature
+				var m map[string]interface{}
+				json.Unmarshal(r.Args, &m)
+				m["cut"] = r.Cuts[0]
+				args, _ = json.Marshal(m)
+			}
+			got := callFn(r.Fn, args)
 			res.Stats.Calls++
 			bad := ""
 			if r.Src == "decl" {
 				bad = subset(parseAny(string(r.Res)), parseAny(got), "res")
 			} else if canon(r.Res) != canon([]byte(got)) {
 				bad = "differs"
+			}
+			if r.Fn == "GetMsgSig" && bad == "" {
+				gm, _ := parseAny(got).(map[string]interface{})
+				str, _ := gm["String"].(string)
+				if !sigStringRe.MatchString(str) {
+					bad = "text rendering not well formed: " + str
+				}
+				if bad == "" && r.StrHdr != nil && gm["err"] != nil {
+					if (*r.StrHdr == "" && str != "") || (*r.StrHdr != "" && !strings.HasPrefix(str, *r.StrHdr+"I")) {
+						bad = "rendering " + str + " does not start with " + *r.StrHdr + "I"
+					}
+				}
+				if bad == "" && len(r.Alt) > 0 { // headers do not fit: explicit truncated indication, or the same signature
+					if gm["err"] != "trunc" {
+						if d := subset(parseAny(string(r.Same)), parseAny(got), "same"); d != "" {
+							bad = "neither truncated nor the full-capacity signature: " + d
+						} else if full := callFn(r.Fn, r.Full); sigPart(full) != sigPart(got) {
+							bad = "neither truncated nor equal to the signature with an ample header array: " + sigPart(full)
+						}
+					}
+				}
+				if bad == "" && r.Grp != "" && r.Layer != "auto" {
+					if first, ok := grpSig[r.Grp]; !ok {
+						grpSig[r.Grp] = sigPart(got)
+					} else if first != sigPart(got) {
+						bad = "signature differs from another message with the same fingerprinted content: " + first
+					}
+				}
+				if r.Layer == "auto" && bad != "" {
+					r.Src = "auto"
+				}
 			}
 			if bad != "" && r.Src == "decl" {
 				declBad++
